@@ -17,6 +17,13 @@ pub struct AEvent {
 }
 
 #[derive(Deserialize, Debug, Clone)]
+pub struct ADump {
+	pub code: String,
+	pub n: usize,
+	pub toks: Vec<usize>,
+}
+
+#[derive(Deserialize, Debug, Clone)]
 pub struct ACol {
 	pub p: u8,
 	pub f: u8,
@@ -50,6 +57,9 @@ pub struct Beh {
 	/// <<rows, closed rows>> after each event of the history
 	#[serde(default)]
 	pub steps: Vec<[usize; 2]>,
+	/// the debug option's dump files: (code kind, index, tokens whose data the file holds)
+	#[serde(default)]
+	pub dump: Vec<ADump>,
 	#[serde(default)]
 	pub emit: Vec<AEvent>,
 	#[serde(default)]
